@@ -5,7 +5,7 @@ from ..core import sym
 from ..core.expand import u, call_name, get_arg, bind_args, Expander, is_marker, phi_alternatives
 from ..core.loader import Inconclusive, const_value, parents
 from .common import (alternatives, substitute, guard_dnf, literal_dnf, guarded_values, explicit_guards_of, returns, all_nodes, callee, strip_shape, calls_in, guards_of, stmt_of, kw, find_assignments, in_loop,
-                     result_fields, compare_nf, loops_around)
+                     result_fields, compare_nf, loops_around, literal_nf)
 
 EXPLANATION = (
     "Decided: D1 status protocol: on the path where the observed catalog is empty each test either returns before any "
@@ -102,12 +102,12 @@ def rule_status(ck):
         child = gq[0]
         for p_ in parents(gq[0]):
             if isinstance(p_, ast.If):
-                d = literal_dnf(p_.test, True)
-                atoms = [(u(a_), pl_) for conj in d for a_, pl_ in conj]
-                if len(d) == 2 and all(len(c_) == 1 and c_[0][1] for c_ in d) and any(N.nf(c_[0][0]) == N.nf('n_obs == 0') for c_ in d) \
-                        and any(isinstance(c_[0][0], ast.Call) and (callee(P, f, c_[0][0]) or '') in ('numpy.isnan', 'math.isnan') for c_ in d):
-                    if any(child is s_ for s_ in p_.orelse):
-                        ctrl = (p_, p_.body)
+                # the condition of the *other* arm, whichever way round the test is written
+                in_else = any(child is s_ for s_ in p_.orelse)
+                d = literal_dnf(p_.test, in_else)
+                if len(d) == 2 and all(len(c_) == 1 for c_ in d) and any(literal_nf(N, c_[0][0], c_[0][1]) == N.nf('n_obs == 0') for c_ in d) \
+                        and any(c_[0][1] and isinstance(c_[0][0], ast.Call) and (callee(P, f, c_[0][0]) or '') in ('numpy.isnan', 'math.isnan') for c_ in d):
+                    ctrl = (p_, p_.body if in_else else p_.orelse)
             if p_ is f.node:
                 break
             child = p_
